@@ -3,3 +3,5 @@ import Spec.Wsgi
 import Spec.State
 import Spec.NumDB
 import Spec.Standards
+import Spec.GS1
+import Spec.GS1Data
